@@ -10,6 +10,7 @@ src=$(readlink -f "$1"); id=$2; shift 2
 export GOFLAGS=-mod=mod GOPROXY=off GOSUMDB=off GOTOOLCHAIN=local
 W=$(mktemp -d /var/tmp/seedeval-XXXXXX); trap 'rm -rf "$W"' EXIT
 out=/verif/seeded/$id; mkdir -p "$out"
+[ "$src" = "$(readlink -f "$out")" ] && { echo "source directory must not be the seeded/<id> directory itself (its demo/ would be removed)"; exit 2; }
 cp "$src/patch.diff" "$out/patch.diff"; rm -rf "$out/demo"; cp -r "$src/demo" "$out/demo" 2>/dev/null
 [ -f "$src/meta.json" ] && cp "$src/meta.json" "$out/author_meta.json"
 rsync -a --exclude .git /repo/ "$W/clean/"; rsync -a --exclude .git /repo/ "$W/mut/"
@@ -20,7 +21,11 @@ changed=$(cd "$W" && diff -rq clean mut --exclude .git | grep -v "Only in mut: .
 # demonstration: copy demo files into both trees (test files into the repo root or as given by RUN.txt)
 runcmd=$(grep -m1 -E "go (test|run)" "$out/demo/RUN.txt" 2>/dev/null | sed 's/^[^g]*//')
 demo() { # $1 = tree
-  (cd "$1" && for f in "$out"/demo/*_test.go; do [ -f "$f" ] && cp "$f" .; done
+  (cd "$1" && for f in "$out"/demo/*_test.go; do [ -f "$f" ] || continue
+     # a demonstration goes into the directory of the package it declares (stdlib_test -> stdlib/, ...)
+     case "$(sed -n 's/^package \([a-z_]*\).*/\1/p' "$f" | head -1)" in
+       stdlib|stdlib_test) cp "$f" stdlib/;; json|json_test) cp "$f" stdlib/json/;;
+       parser|parser_test) cp "$f" parser/;; token|token_test) cp "$f" token/;; *) cp "$f" .;; esac; done
    for d in "$out"/demo/*/; do [ -d "$d" ] && cp -r "$d" .; done
    for f in "$out"/demo/*.go; do case "$f" in *_test.go) ;; *) [ -f "$f" ] && mkdir -p zzdemo && cp "$f" zzdemo/;; esac; done
    if [ -n "$runcmd" ]; then timeout 900 bash -c "$runcmd" > "$W/demo.$2.log" 2>&1; else timeout 900 go test -vet=off -count=1 -run 'Seed|Demo' . > "$W/demo.$2.log" 2>&1; fi; echo $?)
